@@ -99,6 +99,28 @@ class BadReduce(object):
         return 11
 
 
+class BadHashKeyError(object):
+    def __hash__(self):
+        raise KeyError('hash looks something up and fails')
+
+
+class BadReprKeyError(object):
+    def __repr__(self):
+        raise KeyError('repr looks something up and fails')
+    __str__ = __repr__
+
+
+class BadReduceKeyError(object):
+    def __reduce_ex__(self, proto):
+        raise KeyError('reduce looks something up and fails')
+    def __repr__(self):
+        return 'BadReduceKeyError()'
+    def __eq__(self, other):
+        return isinstance(other, BadReduceKeyError)
+    def __hash__(self):
+        return 13
+
+
 def hostile(kind):
     if kind == 'gen':
         return (i for i in range(2))
@@ -112,10 +134,16 @@ def hostile(kind):
         return BadEq()
     if kind == 'badreduce':
         return BadReduce()
+    if kind == 'badhashkey':
+        return BadHashKeyError()
+    if kind == 'badreprkey':
+        return BadReprKeyError()
+    if kind == 'badreducekey':
+        return BadReduceKeyError()
     raise ValueError(kind)
 
 
-HOSTILE_KINDS = ['gen', 'lam', 'badhash', 'badrepr', 'badreduce']   # 'badeq' (raising __eq__) is outside the statement: neither unhashable nor unencodable
+HOSTILE_KINDS = ['gen', 'lam', 'badhash', 'badrepr', 'badreduce', 'badhashkey', 'badreprkey', 'badreducekey']   # 'badeq' (raising __eq__) is outside the statement: neither unhashable nor unencodable
 
 
 def has_float(spec):
